@@ -24,7 +24,7 @@ func init() {
 		Rule: "seeded part: one run = an everything-profile history (all message kinds, both routes, governance updates, signature registry) executed on replicas A (observed), B (silent), D (crashing at seeded points) and, for every 4th run, C (child process, other GOMAXPROCS); " +
 			"enumeration part (thorough): for short base histories every crash point of every block (before Commit and at each of the batch writes of Commit) is taken once. " +
 			"non-trivial = the history contains accepted custom messages and at least one crash fired on D; distinct = hash of message kinds x routes, configuration shape, crash points fired and outcome",
-		Quick:      Tier{Runs: 200, BudgetSec: 55},
+		Quick:      Tier{Runs: 450, BudgetSec: 55},
 		Thorough:   Tier{Runs: 12000, BudgetSec: 700},
 		RunSeed:    c11RunSeed,
 		Replay:     c11Replay,
@@ -32,13 +32,23 @@ func init() {
 		Real:       append([]string{"two to four independent app.App instances per run, restart over the surviving disk (app.New on the same DB)", "child process replica"}, distReal...),
 		Stub:       distStub,
 		Assumes:    []string{"Go's map iteration order cannot be seeded: a divergence caused by it may need several executions to show; the replay command re-executes the comparison up to 20 times", "transaction log strings are compared as information only (ABCI declares them non-deterministic)"},
-		FaultKinds: []string{"F-replica", "F-crash before Commit", "F-crash inside Commit at the k-th batch write", "F-order", "F-gov"},
+		FaultKinds: []string{"F-replica", "F-crash before Commit", "F-crash inside Commit at the k-th batch write", "F-order", "F-gov", "F-upgrade (every sixth run: two replicas execute the v1.2.0 upgrade handler over the same rewritten pre-upgrade store, one of them dying and recovering in the preparing or the upgrading block; app hashes compared after every block)"},
 	})
 }
 
 var c11Opts = everythingOpts{MaxAmtExp: 30, Gov: true, Sig: true, Crash: true, Adversarial: true, Blocks: [2]int{8, 28}}
 
 func c11RunSeed(seed uint64, tier string) *Outcome {
+	if seed%6 == 5 {
+		// upgrade sub-profile: the replicas run the v1.2.0 upgrade handler over the same pre-upgrade store
+		tr := c16Trace(seed)
+		var x c16Extra
+		_ = jsonUnmarshal(tr.Extra, &x)
+		x.C11Upgrade = true
+		tr.Extra = mustJSON(x)
+		tr.Profile = "C11"
+		return c11UpgradeExec(tr)
+	}
 	tr, src, _, err := buildEverything(seed, "C11", c11Opts)
 	if err != nil {
 		return &Outcome{InfraErr: err}
@@ -54,6 +64,20 @@ func c11RunSeed(seed uint64, tier string) *Outcome {
 
 // c11Replay re-executes the comparison several times: map-order divergences are probabilistic.
 func c11Replay(tr *kernel.Trace) *Outcome {
+	var x c16Extra
+	if len(tr.Extra) > 0 && jsonUnmarshal(tr.Extra, &x) == nil && x.C11Upgrade {
+		var first *Outcome
+		for i := 0; i < 12; i++ { // map-order divergences are probabilistic
+			o := c11UpgradeExec(tr.Clone())
+			if first == nil || o.InfraErr != nil || len(o.Violations) > 0 {
+				first = o
+			}
+			if o.InfraErr != nil || len(o.Violations) > 0 {
+				break
+			}
+		}
+		return first
+	}
 	var last *Outcome
 	div := 0
 	n := 20
@@ -327,4 +351,50 @@ func c11Enumerate(tier string, emit func(*Outcome)) {
 			}
 		}
 	}
+}
+
+// c11UpgradeExec: replica A executes the trace as recorded (it may die and recover in the preparing or the upgrading
+// block), replica B executes the same blocks without dying; both start from the same genesis and the same rewritten
+// pre-upgrade store. Their app hashes must agree after every block.
+func c11UpgradeExec(tr *kernel.Trace) *Outcome {
+	o := &Outcome{Trace: tr}
+	quiet := tr.Clone()
+	for i := range quiet.Blocks {
+		quiet.Blocks[i].Crash = 0
+	}
+	a := c16Replay(tr.Clone())
+	b := c16Replay(quiet)
+	for _, x := range []*Outcome{a, b} {
+		if x.InfraErr != nil {
+			o.InfraErr = x.InfraErr
+			return o
+		}
+		o.Stats.Merge(&x.Stats)
+	}
+	o.Stats.Inc("probe.upgrade_block_compared_across_replicas")
+	for _, x := range []*Outcome{a, b} {
+		for _, v := range x.Violations {
+			if strings.Contains(v.Message, "already saved to different hash") {
+				o.Violations = append(o.Violations, &kernel.Violation{Property: "C11", Check: "replicas", Signature: "replica-divergence:crash-recovery-in-upgrade", Block: v.Block, TxIndex: -1,
+					Message: "re-executing the block after a crash produced a different store: " + v.Message})
+				return o
+			}
+		}
+	}
+	n := len(a.Hashes)
+	if len(b.Hashes) < n {
+		n = len(b.Hashes)
+	}
+	for i := 0; i < n; i++ {
+		o.Evals++
+		if a.Hashes[i] != b.Hashes[i] {
+			o.Violations = append(o.Violations, &kernel.Violation{Property: "C11", Check: "replicas", Signature: "replica-divergence:upgrade", Block: i, TxIndex: -1,
+				Message: fmt.Sprintf("after block %d (the upgrade runs in block 1) replica A has app hash %s, replica B %s", i, a.Hashes[i], b.Hashes[i])})
+			break
+		}
+	}
+	o.Nontrivial = n >= 2
+	o.Fingerprint = fingerprint("upgrade", statsClasses(&o.Stats, "probe.", "fault."), len(o.Violations) > 0)
+	o.Sample = map[string]interface{}{"seed": tr.Seed, "sub_profile": "upgrade", "blocks_compared": n}
+	return o
 }
